@@ -237,6 +237,8 @@ def units(tier):
     U += iterator_units(tier)
     U += spec_sanity_units()
     U += comparator_units()
+    U += cache_units()
+    U += relax_units()
     return U
 
 
@@ -424,6 +426,95 @@ __CPROVER_assigns()
                   desc="lemma: the comparator is a strict total order on the cells (so any correct sort yields one sequence)"))
     return U
 
+
+def relax_units():
+    """The relaxation step of the two breadth-first value propagations (base: impose_lower_star_filtration, from the top
+    cells down through boundaries; periodic: impose_lower_star_filtration_from_vertices, from the vertices up through
+    coboundaries): innermost loop body as a function, shape-independent (route U)."""
+    U = []
+    G = ("#include <math.h>\n#define NC 64\ndouble g_data[NC]; bool is_this_cell_considered[NC]; size_t g_pushed[2]; unsigned g_npush;\n"
+         "static void ghost_push(size_t x) { if (g_npush < 2) g_pushed[g_npush] = x; g_npush++; }\n"
+         "size_t nondet_size(void); double nondet_double(void); bool nondet_bool(void);\n")
+    for cls, path, fname, up in ((CLS_B, B, "impose_lower_star_filtration", False), (CLS_P, PB, "impose_lower_star_filtration_from_vertices", True)):
+        better = "__CPROVER_old(g_data[@cur@]) " + (">" if up else "<") + " __CPROVER_old(g_data[@nb@])"
+        con = f"""
+__CPROVER_requires(@nb@ < NC && @cur@ < NC && @nb@ != @cur@ && !isnan(g_data[@nb@]) && !isnan(g_data[@cur@]) && g_npush == 0)
+__CPROVER_ensures(g_data[@nb@] == (({better}) ? __CPROVER_old(g_data[@cur@]) : __CPROVER_old(g_data[@nb@])))
+__CPROVER_ensures(g_data[@cur@] == __CPROVER_old(g_data[@cur@]))
+__CPROVER_ensures(is_this_cell_considered[@nb@])
+__CPROVER_ensures(g_npush == (__CPROVER_old(is_this_cell_considered[@nb@]) ? 0 : 1) && (g_npush == 0 || g_pushed[0] == @nb@))
+__CPROVER_assigns(g_data[@nb@], is_this_cell_considered[@nb@], g_pushed[0], g_npush)
+"""
+        fn = Fn(path, rf"void {cls}<T>::{fname}\(\)", "relax_step", con, scopes=[cls],
+                piece={"kind": "loop", "ordinal": 3, "sig": "void relax_step(size_t @nb@, size_t @cur@)"},
+                derive={"nb": r"for \(auto (\w+) : \w*bd\)", "cur": r"for \(auto (\w+) : indices_to_consider\)"},
+                subs=[(r"this->data\[", "g_data["), (r"new_indices_to_consider\.push_back\(", "ghost_push(")],
+                canary=(r"ghost_push\(", "if (0) ghost_push("))
+        nm = ("per" if up else "base") + f".{fname}.relax_step"
+        U.append(Unit(nm, "C13", [fn], enforce="relax_step", globals_=G, inputs=["in_nb", "in_cur", "g_data", "is_this_cell_considered"], runs=[Run(backend="z3", timeout=300)], replay=replay_by_native_search,
+                      harness="int main(void) {\n  size_t in_nb = nondet_size(), in_cur = nondet_size(); g_npush = 0;\n  relax_step(in_nb, in_cur);\n  __CPROVER_assert(0, \"VP_REACH\");\n  return 0;\n}\n",
+                      desc=f"{cls}::{fname}, relaxation step (innermost loop body): the {'coface' if up else 'face'} takes the {'larger' if up else 'smaller'} of the two values, the current cell keeps its value, the {'coface' if up else 'face'} is marked as reached and queued for the next round exactly when it was not marked before"))
+    return U
+
+NATIVE_RESULTS = []
+
+
+def replay_by_native_search(unit, failure):
+    """The cache units are about call sequences on one object; the failing history is searched for by the native stand-in
+    of the same run (second life of every swept complex: new values, impose_lower_star_filtration, initialize_filtration)."""
+    for n in NATIVE_RESULTS:
+        if n["unit"] == "native.values_and_order" and n.get("failures"):
+            c = n["failures"][0]
+            return {"reproduced": True, "detail": f"native.values_and_order on the real classes: {c.get('case')}", "native_case": c}
+    return {"reproduced": None, "detail": "no swept complex / history shows a wrong value or order on the real classes"}
+
+
+def cache_units():
+    """Bitmap_cubical_complex::initialize_filtration / filtration_simplex_range: the order cache.  The vector and the
+    standard algorithms are abstract (ghost size + ghost state); what is under contract is the sequence the wrapper
+    performs WHATEVER the cache held before: resize to the number of cells, fill with 0..n-1, sort the whole range with
+    the comparator - so an explicit initialize_filtration() always refreshes the order (history independence)."""
+    G = ("typedef size_t Index;\nsize_t data_n; size_t sorted_n; int g_state; unsigned g_sort_calls, g_iota_calls; size_t g_sort_n; int g_sort_state; unsigned g_init_calls;\n"
+         "enum { ST_ARBITRARY = 0, ST_RESIZED = 1, ST_IOTA0 = 2, ST_SORTED = 3 };\n"
+         "static void vec_resize(size_t n) { sorted_n = n; g_state = ST_RESIZED; }\n"
+         "static void vp_iota_whole(long start) { g_iota_calls++; g_state = (start == 0) ? ST_IOTA0 : ST_ARBITRARY; }   /* std::iota(begin, end, start) */\n"
+         "static void vp_sort_whole_is_before(void) { g_sort_calls++; g_sort_n = sorted_n; g_sort_state = g_state; g_state = ST_SORTED; }   /* std::sort / tbb::parallel_sort(begin, end, is_before_in_filtration(this)) */\n"
+         "size_t nondet_size(void); int nondet_int(void);\n")
+    con = """
+__CPROVER_requires(g_sort_calls == 0 && g_iota_calls == 0)
+__CPROVER_ensures(sorted_n == data_n && g_state == ST_SORTED)
+__CPROVER_ensures(g_sort_calls == 1 && g_iota_calls == 1 && g_sort_n == data_n && g_sort_state == ST_IOTA0)
+__CPROVER_assigns(sorted_n, g_state, g_sort_calls, g_iota_calls, g_sort_n, g_sort_state)
+"""
+    subs = [(r"(?:this->)?sorted_cells\.resize\(([^;]*)\);", r"vec_resize(\1);"), (r"(?:this->)?data\.size\(\)", "data_n"),
+            (r"std::iota\(std::begin\(sorted_cells\), std::end\(sorted_cells\), ([^;]*)\);", r"vp_iota_whole(\1);"),
+            (r"(?:std::sort|tbb::parallel_sort)\(sorted_cells\.begin\(\), sorted_cells\.end\(\),\s*is_before_in_filtration<T>\(this\)\);", "vp_sort_whole_is_before();"),
+            (r"(?:this->)?sorted_cells\.empty\(\)", "(sorted_n == 0)", 0)]
+    U = []
+    for tbb in (False, True):
+        fn = Fn(CC, r"void Bitmap_cubical_complex<T>::initialize_filtration\(\)", "initialize_filtration", con, scopes=["Bitmap_cubical_complex"],
+                subs=subs, pp_defines=(("GUDHI_USE_TBB",) if tbb else ()), canary=(r"vp_iota_whole\(0\);", "vp_iota_whole(1);"))
+        U.append(Unit("cache.initialize_filtration" + (".tbb" if tbb else ""), "C13", [fn], enforce="initialize_filtration", globals_=G, inputs=["data_n", "sorted_n", "g_state"], replay=replay_by_native_search,
+                      harness="int main(void) {\n  data_n = nondet_size(); sorted_n = nondet_size(); g_state = nondet_int(); g_sort_calls = 0; g_iota_calls = 0;\n  initialize_filtration();\n  __CPROVER_assert(0, \"VP_REACH\");\n  return 0;\n}\n",
+                      desc="Bitmap_cubical_complex::initialize_filtration" + (" (GUDHI_USE_TBB branch)" if tbb else "") + ": whatever the cache held (any size, any content), it is resized to the number of cells, filled with 0..n-1 and sorted as a whole with is_before_in_filtration, exactly once - an explicit call always refreshes the order (std::iota / std::sort are trusted to their standard specification)"))
+    con2 = """
+__CPROVER_requires(g_init_calls == 0 && (sorted_n == 0 || (sorted_n == data_n && g_state == ST_SORTED)) && data_n >= 1)
+__CPROVER_ensures(sorted_n == data_n && g_state == ST_SORTED)
+__CPROVER_ensures(g_init_calls <= 1 && (__CPROVER_old(sorted_n) != 0 || g_init_calls == 1))
+__CPROVER_assigns(sorted_n, g_state, g_init_calls)
+"""
+    stub = Fn(CC, r"void Bitmap_cubical_complex<T>::initialize_filtration\(\)", "initialize_filtration", """
+__CPROVER_ensures(sorted_n == data_n && g_state == ST_SORTED && g_init_calls == __CPROVER_old(g_init_calls) + 1)
+__CPROVER_assigns(sorted_n, g_state, g_init_calls)
+""", scopes=["Bitmap_cubical_complex"], subs=subs)
+    fr = Fn(CC, r"Filtration_simplex_range const& filtration_simplex_range\(\)", "filtration_simplex_range", con2,
+            sig_subs=[(r"Filtration_simplex_range const&", "void")], subs=[(r"(?:this->)?sorted_cells\.empty\(\)", "(sorted_n == 0)", 0), (r"return sorted_cells;", "return;")],
+            pp_defines=(), canary=(r"if \(\(sorted_n == 0\)\)", "if (!(sorted_n == 0))"))
+    U.append(Unit("cache.filtration_simplex_range", "C13", [stub, fr], enforce="filtration_simplex_range", replace=["initialize_filtration"], globals_=G,
+                  inputs=["data_n", "sorted_n"], replay=replay_by_native_search,
+                  harness="int main(void) {\n  data_n = nondet_size(); sorted_n = nondet_size(); g_state = nondet_int(); g_init_calls = 0;\n  filtration_simplex_range();\n  __CPROVER_assert(0, \"VP_REACH\");\n  return 0;\n}\n",
+                  desc="Bitmap_cubical_complex::filtration_simplex_range: computes the order when the cache is empty (at most one computation per call), and returns a cache that lists every cell in order, given a cache that is either empty or current (non-empty complex: an empty cache is the only 'not computed' marker)"))
+    return U
 
 # ------------------------------------------------------------------------------------------------ replay
 REPLAY_SRC = os.path.join(VERIF, "replay", "cubical.cpp")
